@@ -107,6 +107,27 @@ def run(ctx, replay=None):
             cases.setdefault(c["t"], []).append(c)
     # ---- spec oracle on the implementation's observations ----
     n_eval, distinct, okcount, errcount = 0, set(), 0, 0
+    packcases = {}
+    for t in types:
+        pc = [c for c in cases.get(t["id"], []) if c.get("dir") == "pack"]
+        cases[t["id"]] = [c for c in cases.get(t["id"], []) if c.get("dir") != "pack"]
+        packcases[t["id"]] = pc
+        for c in pc:
+            n_eval += 1
+            distinct.add((t["id"], "pack", tuple(c.get("f", []))))
+            rep = {"type": t, "case": c}
+            if c.get("res") == "PANIC":
+                ctx.classify("panic", f"{t['name']}: pack panicked", rep); continue
+            cur, total = 0, 0
+            for f, v in zip(t["fields"], [int(x) for x in c["f"]]):
+                if f["skip"]:
+                    continue
+                cur += f["pre"]
+                vv = (1 if v else 0) if f["ty"] == "bool" else v
+                total += (vv % (1 << f["bits"])) << cur
+                cur += f["bits"] + f["post"]
+            if sum(b << (8 * i) for i, b in enumerate(c["p"])) != total:
+                ctx.classify("pack-positions", f"{t['name']}: packing a directly constructed value does not place each field (truncated to its width) at its declared bits, or sets undeclared bits", rep)
     for t in types:
         for c in cases.get(t["id"], []):
             n_eval += 1
@@ -128,6 +149,12 @@ def run(ctx, replay=None):
                 else:
                     ctx.classify("roundtrip", f"{t['name']}: unpack(pack(x)) != x", rep)
                 continue
+            if t["kind"] == "enum" and not implicit:
+                v = t["variants"][c["vi"]]
+                if not v["catch"]:
+                    want = v["disc"] % (1 << (8 * t["nbytes"]))
+                    if sum(b << (8 * i) for i, b in enumerate(c["p"])) != want:
+                        ctx.classify("enum-discriminant", f"{t['name']}: variant {v['name']} does not pack to its declared discriminant", rep)
             if t["kind"] == "struct":
                 if not spec_positions(t, c):
                     ctx.classify("positions", f"{t['name']}: packed bytes are not the fields at their declared positions", rep)
@@ -164,6 +191,9 @@ def run(ctx, replay=None):
                 items = ["((%s%%N, %d%%nat), %s)" % (vlib.gz(c["buf"]), c.get("dst_len", 0), vlib.gz(expected_struct(c))) for c in cs]
                 lines.append(f"Definition c{t['id']} : list ((list N * nat) * list Z) := [{'; '.join(items)}].")
                 lines.append(f'Eval vm_compute in ({t["id"]}%N, mismatches (fun c => struct_case d{t["id"]} y{t["id"]} (fst c) (snd c)) c{t["id"]} 0%N).')
+                pitems = ["(%s%%N, %s)" % (vlib.gz([int(x) for x in c["f"]]), vlib.gz(c["p"])) for c in packcases.get(t["id"], []) if "p" in c]
+                lines.append(f"Definition p{t['id']} : list (list N * list Z) := [{'; '.join(pitems)}].")
+                lines.append(f'Eval vm_compute in ({t["id"]}%N, mismatches (pack_case d{t["id"]}) p{t["id"]} 0%N).')
         texts.append("\n".join(lines) + "\n")
     results = vlib.coq_eval_shards(ctx.pid, texts)
     disagreements = 0
@@ -173,7 +203,12 @@ def run(ctx, replay=None):
             ctx.violation("model evaluation failed: " + out[-300:], {"broken": "correspondence", "log": out[-2000:]}, no_input=True)
             continue
         vals = vlib.parse_evals(out)
-        for v, t in zip(vals, sh_types):
+        owners = []
+        for t in sh_types:
+            owners.append(t)
+            if t["kind"] == "struct":
+                owners.append(t)
+        for v, t in zip(vals, owners):
             checked += len(cases.get(t["id"], []))
             if not v.endswith(", [])"):
                 disagreements += 1
